@@ -1,0 +1,170 @@
+//go:build verif
+
+// Contracts for the withdrawal path (C05) and the voted messages of x/bitcoin (C01); comment-only.
+package types
+
+
+// ---- vocabulary of the withdrawal specification -----------------------------------------------------
+// btcaddr_err(a) / btcaddr_script(a): the result of DecodeBtcAddress(a, net) for net = BitcoinNetworks[Params.NetworkName],
+// the network the chain is configured for: 0 iff the address string decodes to a non-deprecated address of that network,
+// and then the payment script (pkScript) of that address.
+// TRUSTED (btcd's btcutil.DecodeAddress / txscript.PayToAddrScript are outside the verified subset). The functions do not take
+// the network as an argument: every call site in x/bitcoin passes BitcoinNetworks[Params.NetworkName], and NetworkName is
+// set at genesis only (ProcessBridgeRequest proves that it keeps it: clause network_kept).
+//@ smt (declare-fun btcaddr_err (Bytes) Int)
+//@ smt (declare-fun btcaddr_script (Bytes) Bytes)
+
+//@ func DecodeBtcAddress
+//@ property C05 C17
+//@ trusted
+//@ ensures no_network: netwk == nil ==> err != nil
+//@ ensures decode: netwk != nil ==> err == btcaddr_err(address)
+//@ ensures script: err == nil ==> result == btcaddr_script(address)
+//@ modifies nothing
+
+// sysAddrScript(pk, script): script pays the relayer key pk (P2WPKH of hash160(key) for a secp256k1 key, P2TR of the
+// tweaked key for a schnorr key). TRUSTED: btcd's schnorr / taproot functions are outside the verified subset.
+//@ smt (declare-fun sysAddrScript (T_relayer_types_PublicKey Bytes) Bool)
+
+//@ func VerifySystemAddressScript
+//@ property C05 C17
+//@ trusted
+//@ requires pubkey != nil
+//@ ensures result == sysAddrScript(*pubkey, script)
+//@ modifies nothing
+
+// le64flat(a, off, n): the little-endian 8-byte encodings of a[off], ..., a[off+n-1], concatenated
+// (= goatcrypto.Uint64LE(s...) for the slice s = (a, off, n); bound to that function by govc/summ_wd.go)
+//@ smt (define-fun-rec le64flat ((a (Array Int Int)) (off Int) (n Int)) Bytes (ite (<= n 0) bempty (bcat (le64flat a off (- n 1)) (le64 (select a (+ off (- n 1)))))))
+
+// feerate_ok(fee, size, max): the fee rate fee/size, computed in float64 exactly as the handlers do
+// (float64(fee) / float64(size), round-to-nearest-even), does not exceed float64(max).
+//@ smt (define-fun feerate_ok ((fee Int) (size Int) (max Int)) Bool (not (fp.gt (fp.div RNE ((_ to_fp 11 53) RNE (to_real fee)) ((_ to_fp 11 53) RNE (to_real size))) ((_ to_fp 11 53) RNE (to_real max)))))
+
+// ---- quantified statements over the id list of a withdrawal batch ---------------------------------------------
+// ids = the id list, n = number of positions covered, k = ids[j]; dom0/val0 = Withdrawals before the call, dom1/val1 = now;
+// raw = the voted transaction. Every predicate is "for all j < n: ..." with the id-list cell ids[j] as the only pattern
+// (the pattern-less forms make the solvers diverge: txoutval(raw, j) matches the parser axiom's instances and vice versa).
+//   wdp_from(.., a, b)  record k existed with status a or b                 wdp_now(.., s): record k exists with status s
+//   wdp_script          output j pays exactly the decoded address script of record k
+//   wdp_valmax          uint64(value of output j) <= RequestAmount of record k
+//   wdp_feerate         float64 fee rate <= float64(MaxTxPrice of record k)   (feerate_ok)
+//   wdp_receipt         the stored receipt of k is {txid, (txout unchanged or j), uint64(value of output j)}
+//   wdp_kept            Address, RequestAmount, MaxTxPrice of k are unchanged
+//@ smt (define-fun wdp_from ((ids Slc_Int) (n Int) (dom0 (Array Int Bool)) (val0 (Array Int T_bitcoin_types_Withdrawal)) (a Int) (b Int)) Bool (forall ((j Int)) (! (=> (and (<= 0 j) (< j n))
+//@       (let ((k (select (arr_Slc_Int ids) (+ (off_Slc_Int ids) j)))) (and (select dom0 k) (or (= (T_bitcoin_types_Withdrawal.Status (select val0 k)) a) (= (T_bitcoin_types_Withdrawal.Status (select val0 k)) b))))) :pattern ((select (arr_Slc_Int ids) (+ (off_Slc_Int ids) j))))))
+//@ smt (define-fun wdp_now ((ids Slc_Int) (n Int) (dom1 (Array Int Bool)) (val1 (Array Int T_bitcoin_types_Withdrawal)) (s Int)) Bool (forall ((j Int)) (! (=> (and (<= 0 j) (< j n))
+//@       (let ((k (select (arr_Slc_Int ids) (+ (off_Slc_Int ids) j)))) (and (select dom1 k) (= (T_bitcoin_types_Withdrawal.Status (select val1 k)) s)))) :pattern ((select (arr_Slc_Int ids) (+ (off_Slc_Int ids) j))))))
+//@ smt (define-fun wdp_script ((ids Slc_Int) (n Int) (val0 (Array Int T_bitcoin_types_Withdrawal)) (raw Bytes)) Bool (forall ((j Int)) (! (=> (and (<= 0 j) (< j n))
+//@       (let ((k (select (arr_Slc_Int ids) (+ (off_Slc_Int ids) j)))) (and (= (btcaddr_err (T_bitcoin_types_Withdrawal.Address (select val0 k))) 0) (= (txoutscript raw j) (btcaddr_script (T_bitcoin_types_Withdrawal.Address (select val0 k))))))) :pattern ((select (arr_Slc_Int ids) (+ (off_Slc_Int ids) j))))))
+//@ smt (define-fun wdp_valmax ((ids Slc_Int) (n Int) (val0 (Array Int T_bitcoin_types_Withdrawal)) (raw Bytes)) Bool (forall ((j Int)) (! (=> (and (<= 0 j) (< j n))
+//@       (let ((k (select (arr_Slc_Int ids) (+ (off_Slc_Int ids) j)))) (<= (u64 (txoutval raw j)) (T_bitcoin_types_Withdrawal.RequestAmount (select val0 k))))) :pattern ((select (arr_Slc_Int ids) (+ (off_Slc_Int ids) j))))))
+//@ smt (define-fun wdp_feerate ((ids Slc_Int) (n Int) (val0 (Array Int T_bitcoin_types_Withdrawal)) (fee Int) (size Int)) Bool (forall ((j Int)) (! (=> (and (<= 0 j) (< j n))
+//@       (let ((k (select (arr_Slc_Int ids) (+ (off_Slc_Int ids) j)))) (feerate_ok fee size (T_bitcoin_types_Withdrawal.MaxTxPrice (select val0 k))))) :pattern ((select (arr_Slc_Int ids) (+ (off_Slc_Int ids) j))))))
+//@ smt (define-fun wdp_receipt ((ids Slc_Int) (n Int) (val1 (Array Int T_bitcoin_types_Withdrawal)) (raw Bytes) (txid Bytes)) Bool (forall ((j Int)) (! (=> (and (<= 0 j) (< j n))
+//@       (let ((k (select (arr_Slc_Int ids) (+ (off_Slc_Int ids) j)))) (let ((r (T_bitcoin_types_Withdrawal.Receipt (select val1 k)))) (and (not ((_ is none_Opt_T_bitcoin_types_WithdrawalReceipt) r)) (= (T_bitcoin_types_WithdrawalReceipt.Txid (val_Opt_T_bitcoin_types_WithdrawalReceipt r)) txid) (= (T_bitcoin_types_WithdrawalReceipt.Amount (val_Opt_T_bitcoin_types_WithdrawalReceipt r)) (u64 (txoutval raw j))))))) :pattern ((select (arr_Slc_Int ids) (+ (off_Slc_Int ids) j))))))
+//@ smt (define-fun wdp_txout_is_pos ((ids Slc_Int) (n Int) (val1 (Array Int T_bitcoin_types_Withdrawal))) Bool (forall ((j Int)) (! (=> (and (<= 0 j) (< j n))
+//@       (let ((k (select (arr_Slc_Int ids) (+ (off_Slc_Int ids) j)))) (= (T_bitcoin_types_WithdrawalReceipt.Txout (val_Opt_T_bitcoin_types_WithdrawalReceipt (T_bitcoin_types_Withdrawal.Receipt (select val1 k)))) j))) :pattern ((select (arr_Slc_Int ids) (+ (off_Slc_Int ids) j))))))
+//@ smt (define-fun wdp_txout_kept ((ids Slc_Int) (n Int) (val0 (Array Int T_bitcoin_types_Withdrawal)) (val1 (Array Int T_bitcoin_types_Withdrawal))) Bool (forall ((j Int)) (! (=> (and (<= 0 j) (< j n))
+//@       (let ((k (select (arr_Slc_Int ids) (+ (off_Slc_Int ids) j)))) (= (T_bitcoin_types_WithdrawalReceipt.Txout (val_Opt_T_bitcoin_types_WithdrawalReceipt (T_bitcoin_types_Withdrawal.Receipt (select val1 k)))) (T_bitcoin_types_WithdrawalReceipt.Txout (val_Opt_T_bitcoin_types_WithdrawalReceipt (T_bitcoin_types_Withdrawal.Receipt (select val0 k))))))) :pattern ((select (arr_Slc_Int ids) (+ (off_Slc_Int ids) j))))))
+//@ smt (define-fun wdp_kept ((ids Slc_Int) (n Int) (val0 (Array Int T_bitcoin_types_Withdrawal)) (val1 (Array Int T_bitcoin_types_Withdrawal))) Bool (forall ((j Int)) (! (=> (and (<= 0 j) (< j n))
+//@       (let ((k (select (arr_Slc_Int ids) (+ (off_Slc_Int ids) j)))) (and (= (T_bitcoin_types_Withdrawal.Address (select val1 k)) (T_bitcoin_types_Withdrawal.Address (select val0 k))) (= (T_bitcoin_types_Withdrawal.RequestAmount (select val1 k)) (T_bitcoin_types_Withdrawal.RequestAmount (select val0 k))) (= (T_bitcoin_types_Withdrawal.MaxTxPrice (select val1 k)) (T_bitcoin_types_Withdrawal.MaxTxPrice (select val0 k)))))) :pattern ((select (arr_Slc_Int ids) (+ (off_Slc_Int ids) j))))))
+// wdp_values(vs, n, raw): vs[j] == uint64(value of output j of raw) for j < n (pattern: the cell vs[j])
+//@ smt (define-fun wdp_values ((vs Slc_Int) (n Int) (raw Bytes)) Bool (forall ((j Int)) (! (=> (and (<= 0 j) (< j n)) (= (select (arr_Slc_Int vs) (+ (off_Slc_Int vs) j)) (u64 (txoutval raw j)))) :pattern ((select (arr_Slc_Int vs) (+ (off_Slc_Int vs) j))))))
+
+// ---- stateless validation and signed payload of the voted withdrawal messages (C01) ------------------------------
+// MinBtcTxSize = 82, MaxAllowedBtcTxSize = 32768.
+
+//@ func (*MsgProcessWithdrawal).Validate
+//@ property C05 C01
+//@ ensures shape: err == nil ==> req != nil && req.Vote != nil && 1 <= len(req.Id) && len(req.Id) <= 32 && req.TxFee != 0
+//@ ensures tx_size: err == nil ==> len(req.NoWitnessTx) >= MinBtcTxSize && len(req.NoWitnessTx) <= MaxAllowedBtcTxSize
+// Observation (not a clause: C01 does not depend on it): unlike the other voted messages this Validate does not call
+// req.Vote.Validate(), so the bitmap size bound is not enforced here; VerifyProposal needs no length bound.
+//@ modifies nothing
+//@ nopanic
+
+//@ func (*MsgProcessWithdrawal).MethodName
+//@ property C01
+//@ ensures result == "Bitcoin/ProcessWithdrawal"
+//@ modifies nothing
+
+//@ func (*MsgProcessWithdrawal).VoteSigDoc
+//@ property C01
+//@ requires req != nil
+//@ ensures payload: result == bcat(bcat(le64flat(arr(req.Id), off(req.Id), len(req.Id)), sha256(req.NoWitnessTx)), le64(req.TxFee))
+//@ modifies nothing
+
+//@ func (*MsgReplaceWithdrawal).Validate
+//@ property C05 C01
+//@ ensures shape: err == nil ==> req != nil && req.Vote != nil && req.NewTxFee != 0
+//@ ensures tx_size: err == nil ==> len(req.NewNoWitnessTx) >= MinBtcTxSize && len(req.NewNoWitnessTx) <= MaxAllowedBtcTxSize
+// Observation (not a clause: C01 does not depend on it): unlike the other voted messages this Validate does not call
+// req.Vote.Validate(), so the bitmap size bound is not enforced here; VerifyProposal needs no length bound.
+//@ modifies nothing
+//@ nopanic
+
+//@ func (*MsgReplaceWithdrawal).MethodName
+//@ property C01
+//@ ensures result == "Bitcoin/ReplaceWithdrawal"
+//@ modifies nothing
+
+//@ func (*MsgReplaceWithdrawal).VoteSigDoc
+//@ property C01
+//@ requires req != nil
+//@ ensures payload: result == bcat(bcat(le64(req.Pid), le64(req.NewTxFee)), sha256(req.NewNoWitnessTx))
+//@ modifies nothing
+
+//@ func (*MsgFinalizeWithdrawal).Validate
+//@ property C05
+//@ ensures shape: err == nil ==> req != nil && len(req.Txid) == 32 && len(req.BlockHeader) == RawBtcHeaderSize
+//@ ensures not_coinbase: err == nil ==> req.TxIndex != 0 && len(req.IntermediateProof) > 0
+//@ modifies nothing
+//@ nopanic
+
+//@ func (*MsgApproveCancellation).Validate
+//@ property C05
+//@ ensures shape: err == nil ==> req != nil && 1 <= len(req.Id) && len(req.Id) <= 32
+//@ modifies nothing
+//@ nopanic
+
+// (before the fix "reject a consolidation message without votes" call.Validate.requires failed here: req.Vote was not
+// tested for nil before req.Vote.Validate() dereferenced it)
+//@ func (*MsgNewConsolidation).Validate
+//@ property C01 C19
+//@ ensures shape: err == nil ==> req != nil && req.Vote != nil
+//@ ensures tx_size: err == nil ==> len(req.NoWitnessTx) >= MinBtcTxSize && len(req.NoWitnessTx) <= MaxAllowedBtcTxSize
+//@ ensures vote: err == nil ==> len(req.Vote.Voters) <= 32 && len(req.Vote.Signature) == 48
+//@ modifies nothing
+//@ nopanic
+
+//@ func (*MsgNewConsolidation).MethodName
+//@ property C01
+//@ ensures result == "Bitcoin/NewConsolidation"
+//@ modifies nothing
+
+//@ func (*MsgNewConsolidation).VoteSigDoc
+//@ property C01
+//@ requires req != nil
+//@ ensures payload: result == sha256(req.NoWitnessTx)
+//@ modifies nothing
+
+// (*MsgNewPubkey).Validate: the following block VERIFIES on its own (13 paths), but is kept as a plain comment: when it is
+// active, the engine crashes (nil dereference in Exec.loadTerm, reached from evalPure1 of req.GetVote() while the contract of
+// VerifyProposal is applied in (msgServer).NewPubkey). Without it the handler inlines Validate and verifies.
+//   func (*MsgNewPubkey).Validate
+//   property C01
+//   ensures shape: err == nil ==> req != nil && req.Vote != nil && req.Pubkey != nil
+//   ensures vote: err == nil ==> len(req.Vote.Voters) <= 32 && len(req.Vote.Signature) == 48
+//   modifies nothing
+
+//@ func (*MsgNewPubkey).MethodName
+//@ property C01
+//@ ensures result == "Bitcoin/NewPubkey"
+//@ modifies nothing
+
+//@ func (*MsgNewPubkey).VoteSigDoc
+//@ property C01
+//@ requires req != nil && req.Pubkey != nil
+//@ ensures payload: result == encpk(req.Pubkey)
+//@ modifies nothing
